@@ -196,6 +196,12 @@ func c13Exec(s *flyt.SharedStore, op StoreOp) string {
 			in[k] = c13Val(op.Vals[j%len(op.Vals)])
 		}
 		s.Merge(in)
+		// the argument stays the caller's: it goes on using (here: emptying) its own map, which an
+		// ordinary map merged from it would never notice
+		for k := range in {
+			delete(in, k)
+		}
+		in["\x00caller"] = 0
 	case "get":
 		v, okk := s.Get(op.Key)
 		if !okk {
@@ -279,7 +285,10 @@ func c13RunOnce(p *C13Program) []HistOp {
 			<-start
 			for _, op := range ops {
 				call := atomic.AddInt64(&clock, 1)
-				out := c13Exec(s, op)
+				var out string
+				if p, v := recoverCall(func() { out = c13Exec(s, op) }); p {
+					out = fmt.Sprintf("PANIC: %v", v) // no operation on an ordinary map panics: never linearizable
+				}
 				ret := atomic.AddInt64(&clock, 1)
 				hist[ti] = append(hist[ti], HistOp{Client: ti, Op: op, Out: out, Call: call, Ret: ret})
 			}
